@@ -371,17 +371,26 @@ def subqap(nm):
 
             argret = []
 
+            # boolean and fixed-point secrets wrap a LinComb: copy that one and wrap the copy
+            from pysnark.boolean import LinCombBool
+            from pysnark.fixedpoint import LinCombFxp
+            secret = (runtime.LinComb, LinCombBool, LinCombFxp)
+
             def copyandadd(el):
+                if isinstance(el, LinCombBool): return LinCombBool(copyandadd(el.lc), False)
+                if isinstance(el, LinCombFxp): return LinCombFxp(copyandadd(el.lc), False)
                 ret = runtime.PrivVal(el.value)
                 argret.append((el, ret))
                 return ret
 
             def copyandaddrev(el):
+                if isinstance(el, LinCombBool): return LinCombBool(copyandaddrev(el.lc), False)
+                if isinstance(el, LinCombFxp): return LinCombFxp(copyandaddrev(el.lc), False)
                 ret = runtime.PrivVal(el.value)
                 argret.append((ret, el))
                 return ret
 
-            argscopy = for_each_in(runtime.LinComb, copyandadd, args)
+            argscopy = for_each_in(secret, copyandadd, args)
 
             # constants used inside the function (LinComb.ONE: comparisons, assertions with ints, ...) must
             # refer to the function's own constant-one wire, not to the caller's
@@ -393,7 +402,7 @@ def subqap(nm):
             finally:
                 (runtime.LinComb.ONE, runtime.LinComb.ONE_SAFE) = oldones
             continuefn(oldctx)
-            retcopy = for_each_in(runtime.LinComb, copyandaddrev, ret)
+            retcopy = for_each_in(secret, copyandaddrev, ret)
 
             if argret: vc_glue(oldctx, newctx, argret) # no secret argument or result: nothing to tie (an empty block breaks qapsplit)
 
